@@ -111,6 +111,7 @@ structure U (α : Type) where
   dot : Option Int := none   -- source of the damage-over-time modifier
   freeze : Bool := false
   p2 : Bool := false
+  bext : Bool := false       -- carries a modifier with the BREAK_EXTEND flag
 
 inductive TaskKind
   | action (target : Int)
@@ -294,12 +295,14 @@ def addMod (u : U α) (k : Int) (src : Int) : U α :=
   if k == 0 then { u with revive := true }
   else if k == 1 then (if u.dot.isSome then u else { u with dot := some src })
   else if k == 2 then { u with freeze := true }
+  else if k == 4 then { u with bext := true }
   else { u with p2 := true }
 
 def rmMod (u : U α) (k : Int) : U α :=
   if k == 0 then { u with revive := false }
   else if k == 1 then { u with dot := none }
   else if k == 2 then { u with freeze := false }
+  else if k == 4 then { u with bext := false }
   else { u with p2 := false }
 
 /-- `InsertAction` -/
@@ -501,6 +504,13 @@ def phase2 (cfg : Cfg) (fuel : Nat) (s : S α) : S α :=
     let s3 := emit (deathCheck (emit (tickPhase2 s2) .phase2End) true) .turnEnd
     exitCheck cfg s3
 
+/-- `phase1` skips the rest of phase 1 and the action: for any unit with the DISABLE_ACTION flag, and
+for an enemy with the BREAK_EXTEND flag -/
+def skipsAction (cfg : Cfg) (s : S α) (id : Int) : Bool :=
+  match unitOf s id with
+  | some u => u.freeze || (u.bext && !isCharId cfg id)
+  | none => false
+
 /-- one turn: `beginTurn`, `phase1`, `action`, `phase2`, `endTurn` -/
 def turn (cfg : Cfg) (fuel : Nat) (s : S α) : S α :=
   let r := Turn.step s.turn .start
@@ -508,7 +518,7 @@ def turn (cfg : Cfg) (fuel : Nat) (s : S α) : S α :=
   | [.started id av st total] =>
     let s1 := emit { s with turn := r.1, active := id } (.turnStart id av total (orderOf st))
     let s2 := deathCheck (tickPhase1 cfg (emit s1 .phase1Start)) false
-    if (match unitOf s2 id with | some u => u.freeze | none => false) then phase2 cfg fuel s2
+    if skipsAction cfg s2 id then phase2 cfg fuel s2
     else
       let s3 := executeQueue cfg fuel s2 true
       if stopped s3 then s3
